@@ -84,6 +84,21 @@ class Check:
         self.obligations.append(o)
         return o.ok
 
+    def adopt(self, rule, other_prop, repo, select, prefix=''):
+        """Re-state obligations decided by the rule module of another property under *rule* of this one (shared mechanism).
+        The other module is run on the same program model; nothing is copied from an earlier run."""
+        import importlib
+        mod = importlib.import_module(f'rules.{other_prop.lower()}')
+        sub = Check(other_prop, self.tier, self.root)
+        mod.run(repo, sub)
+        n = 0
+        for o in sub.obligations:
+            if select(o):
+                n += 1
+                self.ob(rule, o.construct, f'{prefix}{o.text} [decided by {o.rule}]', o.ok, o.loc, o.detail, o.path, discr=f'{o.rule}:{o.discr}')
+        self.stats['functions_analysed'] |= sub.stats['functions_analysed']
+        return n
+
     def info(self, text):
         self.infos.append(text)
 
